@@ -112,7 +112,7 @@ class Scenario:
         return o
 
     # ---- obligations
-    def oblige(self, kind, goal, exact=True, finding=None, note=None, tag=None, oracle=None):
+    def oblige(self, kind, goal, exact=True, finding=None, note=None, tag=None, oracle=None, hint=None):
         """state a goal under the current path condition; top-level conjunctions become one obligation each"""
         name = f'{self.ck.prop}/{self.func_name}/{kind}'
         if self.label:
@@ -126,6 +126,8 @@ class Scenario:
             meta['note'] = note
         if oracle or self.oracle:
             meta['oracle'] = oracle or self.oracle
+        if hint is not None:
+            meta['refute_hint'] = hint      # a sub-class of inputs expected to contain a counter-model
         out = self.run.oblige(name, goal, kind=kind, exact=exact, meta=meta)
         out = out if isinstance(out, list) else [out]
         return out
@@ -275,6 +277,17 @@ class Check:
         timeout = 10000 if self.tier == 'quick' else 60000
         recs = []
         for ob in obs:
+            # refutation hint: a model of hyps ∧ ¬goal ∧ hint is a genuine counter-model of the obligation (the hint
+            # only tells the solver where to look); no model under the hint decides nothing
+            if ob.meta.get('refute_hint') is not None and solve.hinted_refute(ob, ob.meta['refute_hint'], 5000):
+                ob.status, ob.backend = 'refuted', 'z3-' + z3.get_version_string()
+                ob.note = 'counter-model found inside the hinted input sub-class'
+                rec = ObRec(ob)
+                rec.witness = concretise(ob)
+                rec.goal_str = str(ob.goal)[:4000]
+                rec.hyps_str = [str(h)[:600] for h in ob.hyps[-40:]]
+                recs.append(rec)
+                continue
             try:
                 ob.status, ob.backend, ob.time_s, ob.model, ob.note = solve.solve_one(ob, timeout)
             except Exception as e:          # noqa: BLE001
